@@ -82,6 +82,11 @@ def run_mono(case, ctx):
         convpkg.emit(pkg, d, 'v1')
         wins = windows(wav) if todo is None else [tuple(todo['window'])]
         chunks = range(1, nw + 1) if todo is None else [todo['chunk']]
+        # whether a wavelength that lies exactly ON a window end counts as inside is left open by the statement, but it must
+        # be decided the same way for every tabulated wavelength: end kind -> {included?: example window}
+        on_end = {'lower': {}, 'upper': {}}
+        if todo is not None and todo.get('also'):
+            wins = wins + [tuple(todo['also'])]
         for (lo, hi) in wins:
             inside = [w for w in wav if (lo is None or w > lo) and (hi is None or w < hi)]
             allowed = [w for w in wav if (lo is None or w >= lo) and (hi is None or w <= hi)]
@@ -123,6 +128,19 @@ def run_mono(case, ctx):
                         got[match[0]] = (fn, t)
                     missing = [w for w in inside if w not in got]
                     extra = [w for w in got if w not in allowed]
+                    for kind, end in (('lower', lo), ('upper', hi)):
+                        if end is not None and end in wav and (lo != hi):
+                            seen = on_end[kind]
+                            seen.setdefault(end in got, (lo, hi))
+                            if len(seen) == 2:
+                                v = Violation('a tabulated wavelength lying exactly on the %s end of the window is emitted for the '
+                                              'window %r but not for the window %r (wavelengths %r, chunk size %d): whichever way '
+                                              '"inside" is read, one of the two is wrong' % (kind, seen[True], seen[False], wav, chunk),
+                                              'c16:window_end_inconsistent')
+                                red = dict(case)
+                                red['only'] = {'window': list(seen[True]), 'also': list(seen[False]), 'chunk': chunk}
+                                v.case_override = red
+                                raise v
                     if missing:
                         fail('%s: no file for wavelength(s) %r inside the window (files written for %r)' % (
                             what, missing, sorted(got)), 'c16:wavelength_missing')
@@ -162,9 +180,10 @@ def run_mono(case, ctx):
                         fail('%s: files for the wavelengths inside the window differ from chunk size %d: %r vs %r' % (
                             what, reference_files[0], summary, reference_files[1]), 'c16:chunk_dependent')
                 except Violation as v:
-                    red = dict(case)
-                    red['only'] = {'window': [lo, hi], 'chunk': chunk}
-                    v.case_override = red
+                    if getattr(v, 'case_override', None) is None:
+                        red = dict(case)
+                        red['only'] = {'window': [lo, hi], 'chunk': chunk}
+                        v.case_override = red
                     raise
                 if len(inside) == 1:
                     labels.add('single_wavelength_window')
